@@ -638,6 +638,28 @@ def rule_no_raw_user_values_in_result(eng, rep, rule="C20-6.result-arrays-are-ma
     rep.require_count(rule, "user callback call sites known to the value-flow graph", len(user_results), 10)
 
 
+def rule_non_finite_floats_are_replaced(eng, rep, rule="C20-2c.strict-json-has-no-infinity-either"):
+    """'strict JSON when NaN replacement is on': strict JSON has neither NaN nor +/-Infinity.  The scalar branch of replace_nan_with_none must test for every
+    non-finite float (`not math.isfinite(d)`, or isnan and isinf), not for NaN alone."""
+    fi = eng.fn("util.replace_nan_with_none")
+    cfg = eng.cfg(fi)
+    site = eng.where(fi)
+    tests = set()
+    for c in cfg.nodes_of_kind("cond"):
+        for sub in ast.walk(cfg.ast_of(c)):
+            if isinstance(sub, ast.Call) and isinstance(sub.func, (ast.Attribute, ast.Name)):
+                nm = sub.func.attr if isinstance(sub.func, ast.Attribute) else sub.func.id
+                if nm in ("isnan", "isinf", "isfinite"):
+                    tests.add(nm)
+    if not tests:
+        rep.unknown(rule, site, "no isnan / isinf / isfinite test found in replace_nan_with_none")
+    elif "isfinite" in tests or {"isnan", "isinf"} <= tests:
+        rep.ok(rule, site, "the scalar branch tests for every non-finite float (%s)" % ", ".join(sorted(tests)))
+    else:
+        rep.bad(rule, site, "util.replace_nan_with_none|infinity-passes-through",
+                "replace_nan_with_none tests %s only: a result field holding +/-inf (objective infinite at every evaluated point) is written as Infinity, which strict JSON does not allow" % ", ".join(sorted(tests)))
+
+
 def rule_nan_replacement_is_total(eng, rep, rule="C20-2b.NaN-replacement-visits-every-element"):
     """replace_nan_with_none must reach every float of a nested dict/list: a container is answered by a comprehension that applies the function to every element;
     the argument itself is handed back only when it is neither a dict nor a list (a scalar).  A fast path that returns a list unchanged after a partial test
@@ -904,5 +926,6 @@ def run(eng, rep):
     rep.guarded(rule_no_raw_user_values_in_result, eng, rep)
     rep.guarded(rule_integer_arrays_stay_integer, eng, rep)
     rep.guarded(rule_nan_replacement_is_total, eng, rep)
+    rep.guarded(rule_non_finite_floats_are_replaced, eng, rep)
     rep.guarded(rule_table_rows_uniquely_labelled, eng, rep)
     rep.guarded(rule_to_dict_survives_none_fields, eng, rep)
